@@ -241,6 +241,10 @@ KERNELS = [
     dict(name="EA_split_population", file="base/_ea.py", cls="EvolutionaryAlgorithm", func="_split_population",
          params=[("population", "Arr")], ret="Mat", self_attrs={"_pop_size": ("pop_size", "Int"), "_n_jobs": ("n_jobs", "Int")},
          ext_fn={"np.linspace": ("linspaceFn", ["start", "stop", "num"], ["Int", "Int", "Int"])}),
+    # ---- _get_aim: the threshold the stopping rule compares the record with (float arithmetic read over the ring Int; np.inf a parameter)
+    dict(name="EA_get_aim", file="base/_ea.py", cls="EvolutionaryAlgorithm", func="_get_aim",
+         params=[("optimal_value", "Int"), ("termination_error_value", "Int")], ret="Int",
+         self_attrs={"_sign": ("sign", "Int")}, not_none={"optimal_value": "has_optimal"}),
     dict(name="tournament_selection", file="utils/selections.py", func="tournament_selection",
          params=[("fitness", "Arr"), ("rank", "Arr"), ("tour_size", "Int"), ("quantity", "Int")], ret="Arr",
          ext_fn={"random_sample": ("sampler", ["range_size", "quantity", "replace"])}),
@@ -888,6 +892,9 @@ class Tr:
             raise NotRecognised(f"unknown name {e.id}")
         if isinstance(e, ast.List):
             return "[" + ", ".join(self.E(x, env) for x in e.elts) + "]"
+        if isinstance(e, ast.Attribute) and is_np(e, "inf"):
+            self.keyconsts["key_inf"] = float("inf")
+            return "key_inf"
         if isinstance(e, ast.Attribute):
             ta = self.tree_attr(e)
             if ta is not None:
@@ -930,8 +937,8 @@ class Tr:
                 return f"(! {self.B(e.operand, env)})"
             raise NotRecognised("unary operator")
         if isinstance(e, ast.Compare) and len(e.ops) == 1 and isinstance(e.ops[0], (ast.IsNot, ast.Is)) and isinstance(e.comparators[0], ast.Constant) \
-                and e.comparators[0].value is None and self.self_path(e.left) in self.not_none:
-            v = self.not_none[self.self_path(e.left)]
+                and e.comparators[0].value is None and (self.self_path(e.left) in self.not_none or (isinstance(e.left, ast.Name) and e.left.id in self.not_none)):
+            v = self.not_none[e.left.id if isinstance(e.left, ast.Name) else self.self_path(e.left)]
             return v if isinstance(e.ops[0], ast.IsNot) else f"(! {v})"
         if self.is_mask_expr(e):
             return f"(({self.E(e.left, env)}).map fun v => if v > {self.E(e.comparators[0], env)} then (1 : Int) else 0)"
